@@ -534,6 +534,169 @@ func caseHD(seed []byte, purpose, coin, account uint32) (short bool) {
 	return sh != ""
 }
 
+
+// ---------------------------------------------------------------- object-graph cases (value semantics)
+// The model treats keys as immutable values; the real ExtendedKey is a mutable object with memoised
+// fields and a Zero method that wipes slices in place (the keystore zeroes intermediate keys after every
+// address derivation). OBJ / OBJN observe a key object AFTER other objects derived from the same parent
+// (or from the key itself) were created, used and zeroed: the observed key must still be Child(parent, i)
+// (resp. Neuter(parent)). A shared backing array between two key objects shows up here.
+// script: ops joined by '.', executed in order on parent object P and observed object B:
+//   B      B := P.Child(i)  (OBJ)  /  B := P.Neuter()  (OBJN)        exactly once
+//   a<j>   A := P.Child(j); A.Zero()         (sibling, before or after B)
+//   u<j>   A := P.Child(j); _ = A.String()   (sibling kept alive, used)
+//   n      N := P.Neuter(); N.Zero()
+//   c<k>   G := B.Child(k); G.Zero()         (only after B)
+//   m      M := B.Neuter(); M.Zero()         (only after B)
+//   s      _ = B.String()                    (only after B)
+//   p      P.Zero()                          (only after B; later ops on P are skipped)
+func runObjScript(f fields, i uint32, script string, neuter bool) string {
+	return guard(func() string {
+		P := mk(f)
+		var B *hdkeychain.ExtendedKey
+		var berr error
+		pz := false
+		for _, op := range strings.Split(script, ".") {
+			if op == "" {
+				continue
+			}
+			arg := uint32(0)
+			if len(op) > 1 {
+				v, _ := strconv.ParseUint(op[1:], 10, 32)
+				arg = uint32(v)
+			}
+			switch op[0] {
+			case 'B':
+				if neuter {
+					B, berr = P.Neuter()
+				} else {
+					B, berr = P.Child(i)
+				}
+			case 'a':
+				if !pz {
+					if A, err := P.Child(arg); err == nil {
+						A.Zero()
+					}
+				}
+			case 'u':
+				if !pz {
+					if A, err := P.Child(arg); err == nil {
+						_ = A.String()
+					}
+				}
+			case 'n':
+				if !pz {
+					if N, err := P.Neuter(); err == nil && N != P {
+						N.Zero()
+					}
+				}
+			case 'c':
+				if B != nil && berr == nil {
+					if G, err := B.Child(arg); err == nil {
+						G.Zero()
+					}
+				}
+			case 'm':
+				if B != nil && berr == nil {
+					if M, err := B.Neuter(); err == nil && M != B {
+						M.Zero()
+					}
+				}
+			case 's':
+				if B != nil && berr == nil {
+					_ = B.String()
+				}
+			case 'p':
+				if B != nil && B != P {
+					P.Zero()
+					pz = true
+				}
+			}
+		}
+		return res(B, berr)
+	})
+}
+
+func caseObj(f fields, i uint32, script string) {
+	p := &prims{newTable()}
+	impl := runObjScript(f, i, script, false)
+	var ref string
+	if x, e := p.refOfFields(f); e != "" {
+		ref = "err " + e
+	} else {
+		c, e2 := p.refCKD(x, i)
+		ref = p.fmtRef(c, e2)
+	}
+	p.antChild(f, i)
+	sh := ""
+	if shortHardened(f, i) {
+		sh = "short-hardened"
+	}
+	emit("OBJ", encFields(f)+","+strconv.FormatUint(uint64(i), 10)+","+script, impl, ref, sh, p.t)
+}
+
+func caseObjNeuter(f fields, script string) {
+	p := &prims{newTable()}
+	impl := runObjScript(f, 0, script, true)
+	var ref string
+	if x, e := p.refOfFields(f); e != "" {
+		ref = "err " + e
+	} else {
+		c, e2 := p.refNeuter(x)
+		ref = p.fmtRef(c, e2)
+	}
+	p.antNeuter(f)
+	emit("OBJN", encFields(f)+","+script, impl, ref, "", p.t)
+}
+
+func genObjScript(r *rng.R, neuter bool) string {
+	idx := func() string {
+		if r.Chance(35) {
+			return strconv.FormatUint(uint64(0x80000000+uint32(r.Intn(40))), 10)
+		}
+		return strconv.Itoa(r.Intn(40))
+	}
+	var ops []string
+	for j, n := 0, r.Intn(3); j < n; j++ { // before B
+		switch r.Intn(4) {
+		case 0, 1:
+			ops = append(ops, "a"+idx())
+		case 2:
+			ops = append(ops, "u"+idx())
+		default:
+			ops = append(ops, "n")
+		}
+	}
+	ops = append(ops, "B")
+	for j, n := 0, 1+r.Intn(4); j < n; j++ { // after B
+		switch r.Intn(8) {
+		case 0, 1:
+			ops = append(ops, "a"+idx())
+		case 2:
+			ops = append(ops, "n")
+		case 3:
+			if !neuter {
+				ops = append(ops, "c"+idx())
+			} else {
+				ops = append(ops, "s")
+			}
+		case 4:
+			if !neuter {
+				ops = append(ops, "m")
+			} else {
+				ops = append(ops, "a"+idx())
+			}
+		case 5:
+			ops = append(ops, "s")
+		case 6:
+			ops = append(ops, "u"+idx())
+		default:
+			ops = append(ops, "p")
+		}
+	}
+	return strings.Join(ops, ".")
+}
+
 // ---------------------------------------------------------------- generators
 
 var idxBoundaries = []uint32{0, 1, 0x7fffffff, 0x80000000, 0x80000001, 0xffffffff, 44 + hard, 297 + hard}
@@ -736,6 +899,26 @@ func main() {
 		caseChild(kf, 0x80000000+uint32(r.Intn(100)))
 		caseChild(kf, uint32(r.Intn(100)))
 		warm = nil
+	}
+	// --- object graphs: the observed key after siblings / neutered copies / grandchildren / the parent were zeroed
+	for i := 0; i < 200*mult; i++ {
+		kf, ok := randomKey(r)
+		if !ok {
+			continue
+		}
+		caseObj(kf, genIndex(r), genObjScript(r, false))
+		if i%3 == 0 {
+			caseObjNeuter(kf, genObjScript(r, true))
+		}
+	}
+	// directed: sibling derived first and zeroed, then the observed child; and the reverse order
+	for i := 0; i < 6; i++ {
+		if kf, ok := randomKey(r); ok {
+			caseObj(kf, uint32(i), "a7.B")
+			caseObj(kf, uint32(i), "B.a7")
+			caseObj(kf, uint32(i), "B.c1.m.p")
+			caseObjNeuter(kf, "B.p")
+		}
 	}
 	for _, idx := range idxBoundaries {
 		for j := 0; j < 2; j++ {
@@ -1013,6 +1196,10 @@ func doReplay(c string) {
 		caseMaster(unhex(a[0]), unhex(a[1]))
 	case "CHILD":
 		caseChild(decFields(a[0]), u32(a[1]))
+	case "OBJ":
+		caseObj(decFields(a[0]), u32(a[1]), a[2])
+	case "OBJN":
+		caseObjNeuter(decFields(a[0]), a[1])
 	case "NEUTER":
 		caseNeuter(decFields(a[0]))
 	case "STRING":
